@@ -665,7 +665,19 @@ func (w *world) tearAndRecoverFinal(c *lib.Ctx, base image, tbl string, segs []f
 	if c.Failed() {
 		return false
 	}
-	return fw.checkAll("after torn flush + recovery + statement + crash + recovery")
+	if !fw.checkAll("after torn flush + recovery + statement + crash + recovery") {
+		return false
+	}
+	// the recovered database keeps working: the newest row of the table the suffix statement touched can be found
+	// and deleted through the tree (a root pointer that recovery left stale still shows every row to a scan)
+	if t, ok := fw.model.Tables[st.Table]; ok && len(t.Rows) > 0 {
+		c.Tag("suffix-probe")
+		if !fw.do(mkDelete(fw.model, st.Table, seqPred{"=", t.Inserted})) {
+			return false
+		}
+		return fw.checkAll("after deleting the newest row once everything was recovered")
+	}
+	return true
 }
 
 func (w *world) writeImage(img image) {
